@@ -119,6 +119,17 @@ def stepC03 : List String → String
   | "txs" :: _ => "nopanic"
   | "blkc" :: _ => "nopanic"
   | "cfm" :: _ => "nopanic"
+  | "dpb" :: _ => "nopanic"
+  | ["tcc", nOut, idx] => match nat? nOut, nat? idx with
+      | some n, some i => (match ElaVerif.CoinbaseTotal.crossChainIndex true n i with
+          | .val true => "err index" | .val false => "later" | .panic => "panic")
+      | _, _ => "bad-op"
+  | ["rtd", variant, np, c] => match nat? np, hexBytes? c with
+      | some n, some b =>
+        if variant == "tx" ∧ n = 0 then "reject-len" else
+        (match (if variant == "tx" then ElaVerif.CoinbaseTotal.crcArbitersMN true b else ElaVerif.CoinbaseTotal.revertToDPOSCheck true n b) with
+          | .val true => "later" | .val false => "reject-len" | .panic => "panic")
+      | _, _ => "bad-op"
   | ["rcr", c] => match hexBytes? c with
       | some b => (match ElaVerif.CoinbaseTotal.registerCRKey true b with
           | .val none => "later" | .val (some .codeNil) => "err codenil" | .val (some .invalidCode) => "err invalidcode"
